@@ -330,10 +330,11 @@ func verifC34Check(line []rune) {
 	rt.KnownFinding("C34-flow-token-then-paren", verifC34KnownFlowParen(line))
 	rt.KnownFinding("C34-equals-prefix", verifC34KnownEqualsPrefix(line))
 	rt.KnownFinding("C34-inline-call", verifC34KnownInlineCall(line))
+	rt.KnownFinding("C34-empty-quoted-command", verifC34KnownEmptyQuoted(line))
 	if rt.Param("setaside") == 1 {
 		// diagnostic runs only (never set in spec.json): leave the finding families out to
 		// see whether anything else is reported
-		rt.Assume(!verifC34KnownFlowParen(line) && !verifC34KnownEqualsPrefix(line) && !verifC34KnownInlineCall(line))
+		rt.Assume(!verifC34KnownFlowParen(line) && !verifC34KnownEqualsPrefix(line) && !verifC34KnownInlineCall(line) && !verifC34KnownEmptyQuoted(line))
 	}
 	pt, _ := parser.Parse(line, 0)
 	rt.Reach("tokenized")
@@ -458,4 +459,17 @@ func VerifC34List() {
 	rt.Assert(parser.WriteSafeCmds(verifC34Lists[rt.Choice("second", len(verifC34Lists))]) == nil, "the safe list cannot be written")
 	rt.Reach("list-written")
 	verifC34Check([]rune(verifC34ListLines[rt.Choice("line", len(verifC34ListLines))]))
+}
+
+// verifC34KnownEmptyQuoted: an empty quoted string ('' or "") directly after a blank - an empty
+// command name: the tokenizer calls the line safe although murex then runs something that is
+// not on the list (an empty name resolves to the first PATH directory; with parameters the first
+// parameter is run as the command: `"" rm x` runs rm).
+func verifC34KnownEmptyQuoted(line []rune) bool {
+	for i := 0; i+2 < len(line); i++ {
+		if (line[i] == ' ' || line[i] == '\t') && (line[i+1] == '\'' || line[i+1] == '"') && line[i+2] == line[i+1] {
+			return true
+		}
+	}
+	return false
 }
